@@ -404,3 +404,154 @@ pub fn dense32(rows: &[Vec<f64>]) -> smartcore::linalg::naive::dense_matrix::Den
     let r: Vec<Vec<f32>> = rows.iter().map(|r| r.iter().map(|x| *x as f32).collect()).collect();
     smartcore::linalg::naive::dense_matrix::DenseMatrix::from_2d_vec(&r)
 }
+
+// ------------------------------------------------------------------------------------------
+// api-trait twins: every estimator has inherent `fit` / `predict` / `transform` methods AND thin
+// impls of `smartcore::api::{SupervisedEstimator, UnsupervisedEstimator, Predictor, Transformer}`
+// (what `cross_validate` / `cross_val_predict` and any generic caller dispatch to).  The oracle
+// `api_trait_twin` demands that both entry points give the same result, bit for bit, Ok/Err included.
+// ------------------------------------------------------------------------------------------
+pub mod twin {
+    use super::guard;
+    use smartcore::api::{Predictor, SupervisedEstimator, Transformer, UnsupervisedEstimator};
+    use smartcore::error::Failed;
+    use std::fmt::Debug;
+
+    pub const ORACLE: &str = "api_trait_twin";
+
+    // The wrappers below are generic in the estimator type `E`, whose ONLY known methods are those of the
+    // trait bound: the call cannot resolve to the inherent method of the concrete type (which is what
+    // method-call syntax and `Type::fit` paths on the concrete type pick).
+    pub fn fit_sup<E, X, Y, P: Clone>(x: &X, y: &Y, p: P) -> Result<E, Failed>
+    where
+        E: SupervisedEstimator<X, Y, P>,
+    {
+        <E as SupervisedEstimator<X, Y, P>>::fit(x, y, p)
+    }
+    pub fn fit_unsup<E, X, P: Clone>(x: &X, p: P) -> Result<E, Failed>
+    where
+        E: UnsupervisedEstimator<X, P>,
+    {
+        <E as UnsupervisedEstimator<X, P>>::fit(x, p)
+    }
+    pub fn predict<E, X, Y>(m: &E, x: &X) -> Result<Y, Failed>
+    where
+        E: Predictor<X, Y>,
+    {
+        <E as Predictor<X, Y>>::predict(m, x)
+    }
+    pub fn transform<E, X>(m: &E, x: &X) -> Result<X, Failed>
+    where
+        E: Transformer<X>,
+    {
+        <E as Transformer<X>>::transform(m, x)
+    }
+
+    /// Exact rendering of the outcome of a guarded call: `Ok(<Debug of the value>)` (Debug of a float is
+    /// its shortest round-trip form, so equal strings mean equal bits up to NaN payloads),
+    /// `Err(<message of Failed>)`, or `panic` (the message is kept apart: only the fact is compared).
+    pub fn show<R: Debug>(r: &Result<Result<R, Failed>, String>) -> (String, String) {
+        match r {
+            Ok(Ok(v)) => (format!("Ok({:?})", v), String::new()),
+            Ok(Err(e)) => (format!("Err({})", e), String::new()),
+            Err(msg) => ("panic".to_string(), msg.clone()),
+        }
+    }
+    fn clip(s: &str) -> String {
+        if s.chars().count() > 400 {
+            format!("{}…", s.chars().take(400).collect::<String>())
+        } else {
+            s.to_string()
+        }
+    }
+    fn full(s: &(String, String)) -> String {
+        if s.1.is_empty() { clip(&s.0) } else { clip(&format!("{}: {}", s.0, s.1)) }
+    }
+
+    /// A disagreement between the api-trait entry point and the inherent one.
+    #[derive(Clone, Debug)]
+    pub struct Diff {
+        /// which call differed, e.g. `Predictor::predict on the query rows (model fitted through the trait)`
+        pub call: String,
+        pub what: String,
+    }
+
+    /// `fit_t` / `fit_i`: fit through the trait / the inherent method (same data, same parameters);
+    /// `apply_t` / `apply_i`: predict or transform through the trait / the inherent method;
+    /// `probes`: named inputs of `apply` (the training matrix and fresh rows);
+    /// `state`: exact fingerprint of a fitted model (serde state or accessors);
+    /// `same_fit`: the fit is a function of its arguments (no unseeded generator), so the two fitted
+    /// models — and hence all four results per probe — must coincide; otherwise only trait vs inherent
+    /// `apply` on the SAME model is compared.
+    pub fn check<E, X, O: Debug>(
+        fit_trait: &str,
+        apply_trait: &str,
+        method: &str,
+        fit_t: impl Fn() -> Result<E, Failed>,
+        fit_i: impl Fn() -> Result<E, Failed>,
+        apply_t: impl Fn(&E, &X) -> Result<O, Failed>,
+        apply_i: impl Fn(&E, &X) -> Result<O, Failed>,
+        probes: &[(&str, &X)],
+        state: impl Fn(&E) -> String,
+        same_fit: bool,
+    ) -> Option<Diff> {
+        let rt = guard(|| fit_t());
+        let ri = guard(|| fit_i());
+        let class = |r: &Result<Result<E, Failed>, String>| match r {
+            Ok(Ok(_)) => ("Ok(model)".to_string(), String::new()),
+            Ok(Err(e)) => (format!("Err({})", e), String::new()),
+            Err(m) => ("panic".to_string(), m.clone()),
+        };
+        let (ct, ci) = (class(&rt), class(&ri));
+        if ct.0 != ci.0 {
+            return Some(Diff {
+                call: format!("{}::fit", fit_trait),
+                what: format!("fit through the trait gives {}, the inherent fit gives {}", full(&ct), full(&ci)),
+            });
+        }
+        let (mt, mi) = match (rt, ri) {
+            (Ok(Ok(a)), Ok(Ok(b))) => (a, b),
+            _ => return None,
+        };
+        if same_fit {
+            let (st, si) = (guard(|| state(&mt)), guard(|| state(&mi)));
+            if st != si {
+                return Some(Diff {
+                    call: format!("{}::fit", fit_trait),
+                    what: format!(
+                        "the model fitted through the trait differs from the one fitted by the inherent fit: {} vs {}",
+                        clip(&st.unwrap_or_else(|m| format!("panic: {}", m))),
+                        clip(&si.unwrap_or_else(|m| format!("panic: {}", m)))
+                    ),
+                });
+            }
+        }
+        let mut reference: Vec<Option<String>> = vec![None; probes.len()];
+        for (which, m) in [("the trait", &mt), ("the inherent fit", &mi)].iter() {
+            for (pi, (pname, px)) in probes.iter().enumerate() {
+                let a = show(&guard(|| apply_t(m, px)));
+                let b = show(&guard(|| apply_i(m, px)));
+                if a.0 != b.0 {
+                    return Some(Diff {
+                        call: format!("{}::{} on {} (model fitted through {})", apply_trait, method, pname, which),
+                        what: format!("through the trait: {}; inherent {}: {}", full(&a), method, full(&b)),
+                    });
+                }
+                if same_fit {
+                    match &reference[pi] {
+                        None => reference[pi] = Some(b.0.clone()),
+                        Some(r) => {
+                            if *r != b.0 {
+                                return Some(Diff {
+                                    call: format!("{}::fit (seen by {} on {})", fit_trait, method, pname),
+                                    what: format!("model fitted through the trait gives {}; model fitted by the inherent fit gives {}", clip(r), clip(&b.0)),
+                                });
+                            }
+                        }
+                    }
+                }
+            }
+        }
+        None
+    }
+}
